@@ -723,6 +723,16 @@ class Exec(Engine):
                 for exc, cond in c.raises:
                     t = zand(*[t_ for _, t_ in self.spec_conj([cond], self._with_old(s), None)])
                     self.oblige(s, znot(t), "raises", f"post.no-normal-return-when[{exc}:{cond[:40]}]/path{i}", self.fn.lineno)
+                for ga in c.ghost_asserts:
+                    names = {n.id for n in ast.walk(self.reg.parse_spec(ga)) if isinstance(n, ast.Name)}
+                    free = {n for n in names if n not in s.vars and n not in self.reg.specfuns and n not in self.reg.macros and n not in self.reg.defined
+                            and n not in ("forall", "exists", "implies", "result", "len", "old", "Str", "Int", "Bool", "Node", "True", "False", "None") and not n[:1].isupper()}
+                    lam_bound = {a.arg for n in ast.walk(self.reg.parse_spec(ga)) if isinstance(n, ast.Lambda) for a in n.args.args}
+                    if free - lam_bound:
+                        continue   # a local of another path
+                    for e, t in self.spec_conj([ga], s):
+                        self.oblige(s, t, "lemma", f"ghost-assert[{e[:50]}]/path{i}", self.fn.lineno)
+                        s.assume(t)
                 for e, t in self.spec_conj(c.ensures, s):
                     self.oblige(s, t, "post", f"post[{e[:60]}]/path{i}", self.fn.lineno)
                 self.frame_obligations(s, i)
